@@ -2,12 +2,29 @@
 (B) all transitions replayed on the real library, (C) Trace.tla clauses."""
 from props import _con
 
-CLAUSES = ["C12_frame"]
+CLAUSES = ["C12_frame", "C12_reload"]
 NSETUP = 7
 DEPTH_A = (3, 4)
 DEPTH_B = (2, 3)
 WALK = 5
 NWALKS = (150, 1500)
+
+
+def reload_behaviours(quick):
+    """Documents of the C01 space written and read back in every format (MC_Ser, final op RT):
+    the deserialisation leg of C12 (clause C12_reload)."""
+    import tlcrun
+    from tlcrun import MachineryError
+    from props import _ser
+    out = []
+    kinds = ["entity", "generation", "membership"] if quick else _ser.ALL_KINDS
+    for (mode, depth, ks) in (("shapes", 1 if quick else 2, kinds), ("ns", 2, ["entity"])):
+        B = tlcrun.run_mc("C12/R", "MC_Ser", _ser.cfg(mode, depth, "RT", ["json", "xml", "rdf"], ["plain"], "min", ks,
+                                                       emit="final"), workers=1, timeout=3000, heap="8g")
+        if B["errors"] or not B["complete"]:
+            raise MachineryError("behaviour generation (reload) failed: %s" % B["errors"][:3])
+        out += [(h, len(h)) for h in B["tr"]]
+    return out
 
 
 def run(tier, seed):
@@ -18,7 +35,8 @@ def run(tier, seed):
                           dict(base, MaxDepth=DEPTH_A[0 if quick else 1]),
                           dict(base, MaxDepth=DEPTH_B[0 if quick else 1]),
                           dict(base, MaxDepth=WALK), nsetup=ns, walk_len=ns + WALK,
-                          nwalks=NWALKS[0 if quick else 1], seed=seed, clauses=CLAUSES)
+                          nwalks=NWALKS[0 if quick else 1], seed=seed, clauses=CLAUSES,
+                          extra_behaviours=reload_behaviours(quick))
 
 
 def replay(path):
